@@ -126,6 +126,12 @@ Example C19_example_zero :
   oti_new_pinned Release 942574504276 8 1 1 0 = Panic PAssert.
 Proof. vm_compute. repeat split. Qed.
 
+(* the limit "at most 56403 symbols per source block" without division: ceil(ceil(F/T)/Z) <= 56403 iff
+   F <= 56403 * Z * T (the form the symbolic-correspondence reference kani/src/refs.rs::oti_valid_mul uses) *)
+Theorem C19_valid_division_free : forall F T Z Al, 0 < T -> 0 < Z ->
+  (oti_valid F T Z Al <-> F <= 942574504275 /\ T mod Al = 0 /\ F <= 56403 * Z * T).
+Proof. exact valid_division_free. Qed.
+
 Print Assumptions C19_fixed_accepts_iff_valid.
 Print Assumptions C19_fixed_decides.
 Print Assumptions C19_accessors.
@@ -139,3 +145,4 @@ Print Assumptions C19_zero_Z.
 Print Assumptions C19_zero_Al.
 Print Assumptions C19_int_div_ceil_no_overflow.
 Print Assumptions C19_mode_irrelevant.
+Print Assumptions C19_valid_division_free.
